@@ -35,6 +35,7 @@ class Expect:
         self.features: set[str] = set()
         self.decoration: list[str] = []     # literal strings allowed to appear (sheet names etc.)
         self.verbatim: str | None = None    # plain-text family: the decoded source text
+        self.repeats: dict[str, int] = {}       # a non-token label and how many separate leaves of the source hold exactly it ("same multiplicity")
         self.literals: list[str] | None = None   # None = not claimed; else every non-token visible string the source holds: what is left of the
                                                  # output once tokens, these strings and the decoration are taken out must hold no letter or digit
         self.between: list[tuple[str, str, str]] = []   # (token a, token b, text that must stand between them, modulo whitespace)
@@ -112,6 +113,10 @@ def check_text(exp: Expect, full_text: str) -> list[tuple[str, str]]:
             a, b = norm(full_text), norm(exp.verbatim)
             i = next((k for k in range(min(len(a), len(b))) if a[k] != b[k]), min(len(a), len(b)))
             out.append(("verbatim-differs", f"text differs from the decoded source at offset {i}: got {a[i:i + 12]!r}, source {b[i:i + 12]!r}"))
+    for label, n in exp.repeats.items():
+        got = full_text.count(label)
+        if got != n:
+            out.append(("repeated-text-multiplicity", f"the label {label!r} stands in {n} separate leaves of the source and {got}x in the output"))
     if exp.literals is not None:
         # "no text that is neither in the source nor documented decoration": the source's visible text is tokens + declared literals
         rest = T.TOKEN_RE.sub(" ", full_text)
